@@ -217,7 +217,55 @@ class Extractor:
                 return "full"
             if isinstance(c.func, ast.Name) and c.func.id == "detect_and_strip_indentation":
                 return "sub"
+            # f(<x>.split("\n")) where f is checked (syntactically, below) to return a list with one
+            # entry per input line in the same order: still aligned with the line map
+            if (isinstance(c.func, ast.Name) and len(c.args) == 1 and isinstance(c.args[0], ast.Call)
+                    and isinstance(c.args[0].func, ast.Attribute) and c.args[0].func.attr == "split"
+                    and len(c.args[0].args) == 1 and isinstance(c.args[0].args[0], ast.Constant)
+                    and c.args[0].args[0].value == "\n" and self.is_linewise(c.func.id)):
+                return "full"
         return "unknown"
+
+    def is_linewise(self, fname):
+        """True when function `fname` provably returns `out` with `out = list(<its parameter>)` and only
+        element assignments `out[i] = ...` in between (no append/insert/pop/remove/extend/del/slicing)."""
+        cands = [f for q, f in self.fns.items() if q.split(":")[1] == fname and not f.cls]
+        if len(cands) != 1:
+            return False
+        node = cands[0].node
+        params = [a.arg for a in node.args.args]
+        if len(params) != 1:
+            return False
+        out = None
+        for n in ast.walk(node):
+            if isinstance(n, ast.Assign) and len(n.targets) == 1 and isinstance(n.targets[0], ast.Name):
+                v = n.value
+                if (isinstance(v, ast.Call) and isinstance(v.func, ast.Name) and v.func.id == "list"
+                        and len(v.args) == 1 and isinstance(v.args[0], ast.Name) and v.args[0].id == params[0]):
+                    if out is not None:
+                        return False
+                    out = n.targets[0].id
+        if out is None:
+            return False
+        rets = [n for n in ast.walk(node) if isinstance(n, ast.Return)]
+        if not rets or not all(isinstance(r.value, ast.Name) and r.value.id == out for r in rets):
+            return False
+        for n in ast.walk(node):
+            if isinstance(n, ast.Assign):
+                for t in n.targets:
+                    if isinstance(t, ast.Name) and t.id == out and not (isinstance(n.value, ast.Call) and getattr(n.value.func, "id", "") == "list"):
+                        return False
+                    if isinstance(t, ast.Subscript) and isinstance(t.value, ast.Name) and t.value.id == out and isinstance(t.slice, ast.Slice):
+                        return False
+            if isinstance(n, (ast.AugAssign, ast.Delete)):
+                tg = [n.target] if isinstance(n, ast.AugAssign) else n.targets
+                for t in tg:
+                    if any(isinstance(x, ast.Name) and x.id == out for x in ast.walk(t)):
+                        return False
+            if (isinstance(n, ast.Call) and isinstance(n.func, ast.Attribute) and isinstance(n.func.value, ast.Name)
+                    and n.func.value.id == out and n.func.attr in ("append", "insert", "pop", "remove", "extend", "clear", "sort", "reverse")):
+                return False
+        return True
 
     @staticmethod
     def is_pyerr(e):
